@@ -1,6 +1,8 @@
 (* C02 -- Compare-and-swap never loses an update.  Statements only; proofs in Proofs/C02Proof.v. *)
-From WB Require Import Base.Str Base.Json Model.Key Model.Store Model.Entry Model.Core
-  Spec.MapSpec Proofs.CoreFacts Proofs.C01Proof Proofs.C02Proof.
+From Coq Require Import NArith List.
+Import ListNotations.
+From WB Require Import Base.Str Base.Json Model.Key Model.Store Model.Entry Model.Core Model.Conc
+  Spec.MapSpec Proofs.CoreFacts Proofs.C01Proof Proofs.C02Proof Proofs.ConcFacts.
 
 (* a cset succeeds iff the version it carries equals the key's current version (0 for an absent
    or plain value) and then raises it by exactly one; otherwise CasVersionMismatch and no change.
@@ -44,6 +46,34 @@ Theorem C02_one_winner :
       = RErr E_CasVersionMismatch.
 Proof. exact one_winner. Qed.
 Print Assumptions C02_one_winner.
+
+(* ---- "every interleaving of clients": the tasks and channels around the core (Model/Conc.v) ----
+   Every connection is a task that posts one request at a time into the api channel and awaits its answer; one task
+   applies them.  Whatever the scheduler does (any list of task steps [es]): the core has applied the requests in the
+   order in which they entered the channel, its state is that of their serial run -- so the theorems above, which
+   quantify over ALL operation lists, speak about every concurrent execution -- and every client is handed exactly
+   the serial run's answers to its own requests, in the order of its requests.  Assumed of the runtime: the channel is
+   FIFO; nothing about scheduling. *)
+Theorem C02_channel_serializes :
+  forall es,
+    c_served (crun es) ++ c_api (crun es) = c_posted (crun es) /\
+    c_core (crun es) = final init (map snd (c_served (crun es))).
+Proof. exact conc_serializes. Qed.
+Print Assumptions C02_channel_serializes.
+
+Theorem C02_clients_get_the_serial_answers :
+  forall es sn,
+    ans_proj (c_wire (crun es) sn) ++ done_of (c_task (crun es) sn) = mine sn (sres init (c_served (crun es))).
+Proof. exact conc_answers. Qed.
+Print Assumptions C02_clients_get_the_serial_answers.
+
+(* non-vacuity: two clients race for version 0 of one key, the second to post is served second and loses *)
+Example C02_race_nonvacuous :
+  let es := [CPost 0 (OCSet 1 [107] (JNum [49]) 0 false); CPost 1 (OCSet 2 [107] (JNum [50]) 0 false);
+             CServe; CServe; CAnswer 1; CAnswer 0] in
+  c_wire (crun es) 0 = [WAns (OCSet 1 [107] (JNum [49]) 0 false) RUnit] /\
+  c_wire (crun es) 1 = [WAns (OCSet 2 [107] (JNum [50]) 0 false) (RErr E_CasVersionMismatch)].
+Proof. vm_compute. split; reflexivity. Qed.
 
 (* the boundary the hypotheses exclude (F17): at version u64::MAX the model's outcome is a crash *)
 Theorem C02_overflow_refuted :
